@@ -11,7 +11,10 @@ for w in 1 2 3 4; do
     P=$(python3 -c "import json;print(json.load(open('$d/meta.json'))['property'])")
     for q in ${W[$w]}; do [ "$P" = "$q" ] && slugs="$slugs $s"; done
   done
-  ( tools/seedfinal.sh $slugs > .work/seedfinal-worker$w.log 2>&1; echo done > .work/seedfinal-worker$w.done ) &
+  ( SEEDFINAL_NO_RESTORE=1 tools/seedfinal.sh $slugs > .work/seedfinal-worker$w.log 2>&1; echo done > .work/seedfinal-worker$w.done ) &
 done
 wait
+# restore the generated Lean files to what /repo says
+python3 translator/gen_rules.py /repo > /dev/null 2>&1; python3 translator/gen_schema.py /repo > /dev/null 2>&1; python3 translator/gen_builder.py /repo > /dev/null 2>&1; python3 translator/gen_rows.py /repo > /dev/null 2>&1; python3 translator/gen_cost.py /repo > /dev/null 2>&1; VERIF_REPO=/repo python3 translator/gen_consts.py > /dev/null 2>&1; VERIF_REPO=/repo python3 translator/gen_valueorder.py > /dev/null 2>&1
+for P in C04 C12 C13; do ./check $P --tier quick > /dev/null 2>&1; done   # (their generators run inside the checks)
 echo ALLDONE > .work/seedfinal.done
